@@ -22,7 +22,7 @@ def components():
         out.append(("encoder", nm))
         if nm != "polar8_4":
             out.append(("inverse", nm))
-    for nm in ("syndrome-hamming", "bruteforce-hamming", "bm-bch15_7", "reed-rm13", "syndrome-golay-skip", "wagner-spc4", "bp-tree", "minsum-tree", "sc-polar8_4", "polarbp-polar8_4", "softrm-rm13", "hamming-inverse"):
+    for nm in ("syndrome-hamming", "bruteforce-hamming", "bm-bch15_7", "reed-rm13", "syndrome-golay-skip", "wagner-spc4", "bp-tree", "minsum-tree", "sc-polar8_4", "polarbp-polar8_4", "polarbp2-polar8_4", "softrm-rm13", "hamming-inverse"):
         if "skip" not in nm:
             out.append(("decoder", nm))
             if nm.split("-")[0] in ("syndrome", "bruteforce", "bm", "reed", "wagner"):
@@ -105,7 +105,7 @@ def build(kind, nm):
         words.append(w)
         return (lambda x: enc.inverse_encode(x)[0]), words, n, True
     if kind in ("decoder", "decoder-errors", "decoder-int32", "decoder-int64"):
-        soft = nm.split("-")[0] in ("wagner", "bp", "minsum", "sc", "polarbp", "softrm")
+        soft = nm.split("-")[0] in ("wagner", "bp", "minsum", "sc", "polarbp", "polarbp2", "softrm")
         if nm.endswith("hamming") or nm == "hamming-inverse":
             enc = E.HammingCodeEncoder(3)
         elif nm.endswith("bch15_7"):
@@ -122,7 +122,7 @@ def build(kind, nm):
         head = nm.split("-")[0]
         dec = {"syndrome": lambda: D.SyndromeLookupDecoder(enc), "bruteforce": lambda: D.BruteForceMLDecoder(enc), "bm": lambda: D.BerlekampMasseyDecoder(enc),
                "reed": lambda: D.ReedMullerDecoder(enc), "wagner": lambda: D.WagnerSoftDecisionDecoder(enc), "bp": lambda: D.BeliefPropagationDecoder(enc, bp_iters=8),
-               "minsum": lambda: D.MinSumLDPCDecoder(enc, bp_iters=8), "sc": lambda: D.SuccessiveCancellationDecoder(enc), "polarbp": lambda: D.BeliefPropagationPolarDecoder(enc, bp_iters=6),
+               "minsum": lambda: D.MinSumLDPCDecoder(enc, bp_iters=8), "sc": lambda: D.SuccessiveCancellationDecoder(enc), "polarbp": lambda: D.BeliefPropagationPolarDecoder(enc, bp_iters=6), "polarbp2": lambda: D.BeliefPropagationPolarDecoder(enc, bp_iters=2),
                "softrm": lambda: D.ReedMullerDecoder(enc, input_type="soft"), "hamming": lambda: None}[head]()
         f = (lambda x: dec(x)) if dec is not None else (lambda x: enc.inverse_encode(x)[0])
         if kind == "decoder-errors":
@@ -145,7 +145,7 @@ def build(kind, nm):
         w[n - 2] = 1 - w[n - 2]                          # three errors
         pool.append(w)
         if soft:
-            mags = [0.7 + 0.31 * i for i in range(n)]
+            mags = [0.7 + 0.31 * i for i in range(n)] if head != "polarbp2" else [40.0 + 7.0 * i for i in range(n)]
             pool = [torch.tensor([(1 - 2 * float(b)) * mags[(i + 3 * j) % n] for i, b in enumerate(wd.tolist())], dtype=f32) for j, wd in enumerate(pool)]
             pool.append(torch.tensor([0.0] * n, dtype=f32))          # all ties
         if kind in ("decoder-int32", "decoder-int64"):
